@@ -185,6 +185,7 @@ def main(tier, seed):
                 cases.append(("visits=" + ",".join(f"({v // nA},{v % nA})" for v in combo), c))
             e.obligation("running-mean-of-discounted-returns-per-visit", mc_spec, cases=cases)
 
+    _dynaq_model(rep, tier, seed)
     if tier == "thorough":
         bad = sess.cross_check()
         rep.extra["cvc5_disagreements"] = bad
@@ -193,6 +194,86 @@ def main(tier, seed):
     rep.add_queries(sess)
     rep.samples = [o["name"] for o in rep.obligations if o["kind"] == "obligation"][:12]
     return rep.finish()
+
+
+class AtArr(np.ndarray):
+    """object ndarray with jax's functional `.at[idx].set(v)` (the only array API model_update uses)"""
+
+    def __new__(cls, arr):
+        return np.asarray(arr, dtype=object).view(cls)
+
+    @property
+    def at(self):
+        outer = self
+
+        class _At:
+            def __getitem__(self_, idx):
+                class _Set:
+                    def set(self__, v):
+                        new = AtArr(np.array(outer, dtype=object, copy=True))
+                        if isinstance(v, (list, np.ndarray)) or hasattr(v, "shape") and getattr(v, "shape", ()) != ():
+                            vv = np.empty(len(v), dtype=object)
+                            for k_, x in enumerate(list(v)):
+                                vv[k_] = x
+                            np.ndarray.__setitem__(new, idx, vv)
+                        else:
+                            np.ndarray.__setitem__(new, idx, v)
+                        return new
+                return _Set()
+        return _At()
+
+
+def _dynaq_model(rep, tier, seed):
+    """Dyna-Q's learned model = empirical successor frequencies and mean rewards of the observed transitions (E2:
+    the real counter_update / model_update run on symbolic state/action/successor indices and symbolic rewards)."""
+    from e2_pysym import core as E
+    from e2_pysym.core import sym_int, sym_real
+    from props.e2common import E2Report, overlay
+    from rl_blox.algorithm import dynaq
+    e2 = E2Report(PROP, tier, seed)
+    e2.r = rep
+    nS, nA = 2, 2
+    K = 3 if tier == "quick" else 4
+
+    class JnpShim:
+        def __getattr__(self, k):
+            import jax.numpy as jnp
+            return getattr(jnp, k)
+
+        @staticmethod
+        def asarray(x, *a, **k):
+            return AtArr(np.asarray(list(x), dtype=object))
+
+        array = asarray
+
+    def prog(ctx):
+        counter = dynaq.Counter(transition_counter=[[[0 for _ in range(nS)] for _ in range(nA)] for _ in range(nS)],
+                                reward_history=[[[[] for _ in range(nS)] for _ in range(nA)] for _ in range(nS)])
+        model = dynaq.ForwardModel(transition=AtArr(np.zeros((nS, nA, nS), dtype=object)), reward=AtArr(np.zeros((nS, nA, nS), dtype=object)))
+        hist = []
+        with overlay(dynaq, jnp=JnpShim()):
+            for i in range(K):
+                s_, a_, n_ = int(sym_int(f"s{i}", 0, nS - 1)), int(sym_int(f"a{i}", 0, nA - 1)), int(sym_int(f"n{i}", 0, nS - 1))
+                r_ = sym_real(f"r{i}")
+                counter = dynaq.counter_update(counter, s_, a_, r_, n_)
+                model = dynaq.model_update(model, counter, s_, a_, n_)
+                hist.append((s_, a_, n_, r_))
+                for s in range(nS):
+                    for a in range(nA):
+                        visits = [(n, r) for (s0, a0, n, r) in hist if (s0, a0) == (s, a)]
+                        if not visits:
+                            continue
+                        for n in range(nS):
+                            cnt = len([1 for (n0, _) in visits if n0 == n])
+                            ctx.check(model.transition[s, a, n] * len(visits) == cnt, "dynaq-model:transition=empirical-successor-frequencies")
+                            if cnt:
+                                tot = 0
+                                for (n0, r0) in visits:
+                                    if n0 == n:
+                                        tot = tot + r0
+                                ctx.check(model.reward[s, a, n] * cnt == tot, "dynaq-model:reward=mean-of-observed-rewards")
+    e2.run("dynaq.counter_update/model_update", prog, fn="rl_blox.algorithm.dynaq.counter_update/model_update", site_of=lambda label: f"dynaq.model_update:{label}")
+    rep.bounds["dynaq_model"] = f"{nS} states x {nA} actions, histories of {K} symbolic transitions (stochastic successors), symbolic rewards"
 
 
 def replay(path):
